@@ -115,16 +115,44 @@ def profile_vins(templates, k=5, seed=1):
     """k concrete instantiations of the '?' holes, drawn from bytes that steer the parser down different paths"""
     import random
     rnd = random.Random(seed * 7919 + sum(len(t) for t in templates))
-    holes = sum(t.count('?') for t in templates)
+    holes = sum(t.count('?') + t.count('*') for t in templates)
     out = [[ord('-')] * holes, [ord('a')] * holes]
     # dash followed by declared letters / names, and an '=' form, per token
     for fill in ('xy', 'p=', '-o', '-a', 'q='):
         v = []
         for t in templates:
-            n = t.count('?')
+            n = t.count('?') + t.count('*')
             v += [ord(c) for c in ('-' + fill * n)[:n]]
         out.append(v)
     k = max(k, len(out))
     while len(out) < k:
         out.append([rnd.choice(INTERESTING) for _ in range(holes)])
     return out[:k] if holes else [[]]
+
+
+W_OK = 'parse succeeds'
+W_ERR = 'parse raises the user-input error'
+
+
+def Q(prop, decl, toks, env=None, wit=(W_OK, W_ERR), extra=(), second=None, est_gb=4, timeout=900, k=6, name=None, more_profile=()):
+    """one query: declaration table `decl`, token templates, optional environment templates"""
+    env = env or {}
+    tpl = list(toks) + [env[k_] for k_ in sorted(env)] + list(second or [])
+    nm = name or ('d%d_' % decl + '_'.join(t if t else 'E' for t in toks) + ''.join('_env%d-%s' % (k_, v) for k_, v in sorted(env.items()))
+                  + ('_then_' + '_'.join(second) if second is not None else ''))
+    nm = nm.replace('?', 'S').replace('*', 'V')
+    prof = profile_vins(tpl, k=k) + [list(v) for v in more_profile]
+    return Query(nm, shape_defs(decl, toks, prop, env=env, extra=extra, second=second), list(wit), unwind=2, est_gb=est_gb, timeout=timeout,
+                 profile=prof, sample={'declaration_table': decl, 'token_templates': toks, 'env_templates': env,
+                                       'first_vector_templates': second,
+                                       'legend': "'?' = any byte 1..255, '*' = any byte 0..255 (NUL ends the token early: a run of * is every string up to that length)"})
+
+
+BOUNDS_NOTE = {'token_templates': "each query fixes the number of tokens and a template per token; '?'/'*' positions are symbolic bytes, so one query covers every argument vector matching the templates",
+               'model_capacities': CAPS,
+               'declarations': 'tables in harness/parser/decls_table.h (single-character long names so that short symbolic tokens can spell them)'}
+OUTSIDE = ['argument vectors with more tokens / longer tokens than the templates', 'declarations other than the tables used', 'long names longer than one character (except in the directed --no-<name> templates)',
+           'allocation failure', 'undefined behaviour that exists only in the g++ build (counterexamples are replayed there, but absence is shown on the clang -O1 IR)']
+ASSUME = ['exception message formatting is skipped (hook NITRO_VERIF_NO_MESSAGES); message text is not part of these properties',
+          'cleanup-only landing pads (destructors of locals while an exception propagates) are skipped in the encoding (ir2c --leak-on-unwind): no parser state depends on them',
+          'getenv is a stub owned by the harness; the reference specification spec/cli_spec.h is the oracle']
